@@ -101,7 +101,11 @@ fn run(ctx: &RunCtx) -> Report {
     let mut rng = Rng::new(ctx.seed);
     let net = NetCfg {
         latency_min_us: 500,
-        latency_max_us: rng.range(2_000, 200_000),
+        // one-way latency at most 185 ms: with peers answering after at most 120 ms every round trip
+        // stays below the 500 ms minimum request timeout, so the trace decides exactly which answers
+        // the lookup counted (with 200 ms a reply could take 520 ms and be counted or not depending on
+        // the adaptive timeout - a thorough-tier false alarm of an earlier version)
+        latency_max_us: rng.range(2_000, 185_000),
         ..NetCfg::default()
     };
     let sim = Sim::new(ctx.seed, net);
@@ -287,6 +291,16 @@ fn run(ctx: &RunCtx) -> Report {
                         };
                         // only nodes that were *listed* are candidates of the accumulator
                         if closer && !got.contains(cand) && got.len() >= 20 {
+                            if ctx.verbose {
+                                println!("target {} got:", crate::krpc::hex(&lookup_target));
+                                for g in &got {
+                                    println!("  {} {} secure={}", crate::krpc::hex(&g.0), g.1, crate::krpc::bep42_secure(&g.0, *g.1.ip()));
+                                }
+                                println!("best listed:");
+                                for g in best_listed.iter().take(25) {
+                                    println!("  {} {} secure={}", crate::krpc::hex(&g.0), g.1, crate::krpc::bep42_secure(&g.0, *g.1.ip()));
+                                }
+                            }
                             report.violate("order", "reported-nodes-miss-a-closer-node", format!("find_node reported 20 nodes but {} (id {}) is closer than its last entry; {what}", cand.1, hex8(&cand.0)));
                             break;
                         }
